@@ -205,6 +205,11 @@ def run(repo: Repo, tier: str) -> Report:
         ok = len(pt) == 1 and list(pt[0].guards) == [f"ge0[-1*{cnt} + 4]"] and len(zero) == 1 and list(zero[0].guards) == [f"ge0[-1*{cnt} + 4]"]
         rep.ob("R-FORMULA", s.file, n, "fewer than 5 valid cells: input unchanged and reported lambda 0", ok,
                f"{[(norm_stmt(x.stmt), list(x.guards)) for x in pt + zero]}", pt[0].stmt if pt else "out[:] = y[:]")
+    # ---- 5b. R-TAINT (shared with C02): the scores, the robust weights and with them the selected lambda are functions of the valid cells
+    # only - a NaN placeholder that reaches `wsse` or the residuals makes every score NaN, so that no grid value is ever selected
+    from .c02 import taint_rule
+    taint_rule(rep, fam, ["ws2dwcv", "ws2dwcvp"], ["_ws2dwcvp"])
+    rep.floor("R-TAINT sinks (GCV copies)", sum(1 for o in rep.obls if o.rule == "R-TAINT"), 6)
     # ---- 4. R-DIVGUARD (scale flavour)
     divs = divguard(rep, repo, kernels, COPIES, flavours=("scale",))
     n_scale = sum(1 for d in divs if d.flavour == "scale")
